@@ -48,8 +48,8 @@ MAP = [
     (r"src/bls12_381/bls12_381.cpp|include/bls12_381/bls12_381.h", [("C19", []), ("C05", []), ("C09", []), ("C08", []), ("C07", [])]),
     (r"src/wkdibe/api.cpp", [("C11", []), ("C12", []), ("C13", []), ("C14", [])]),
     (r"src/wkdibe/marshal.cpp", [("C15", []), ("C17", [])]),
-    (r"include/wkdibe/api.hpp", [("C15", []), ("C11", []), ("C17", [])]),
-    (r"src/wkdibe/wkdibe.cpp|include/wkdibe/wkdibe.h", [("C19", []), ("C15", [])]),
+    (r"include/wkdibe/api.hpp", [("C15", []), ("C11", []), ("C10", []), ("C19", []), ("C17", [])]),
+    (r"src/wkdibe/wkdibe.cpp|include/wkdibe/wkdibe.h", [("C19", []), ("C15", []), ("C14", []), ("C11", [])]),
     (r"src/lqibe/api.cpp|include/lqibe/api.hpp", [("C16", []), ("C10", []), ("C15", [])]),
     (r"src/lqibe/marshal.cpp", [("C15", []), ("C17", [])]),
     (r"src/lqibe/lqibe.cpp|include/lqibe/lqibe.h", [("C19", []), ("C15", []), ("C16", [])]),
@@ -190,6 +190,8 @@ def main():
     ap.add_argument("--workers", type=int, default=5)
     ap.add_argument("--out", default=None)
     ap.add_argument("--list", action="store_true")
+    ap.add_argument("--desc", default=None, help="only candidates whose description matches this regular expression (e.g. ' delete ')")
+    ap.add_argument("--all", action="store_true", help="run every candidate instead of sampling --n")
     args = ap.parse_args()
     rng = random.Random(args.seed)
     pool = []
@@ -199,7 +201,7 @@ def main():
             continue
         lines, muts = candidate_mutants(rel)
         cache[rel] = lines
-        pool += [(rel, m) for m in muts]
+        pool += [(rel, m) for m in muts if not args.desc or re.search(args.desc, m[2])]
     if args.list:
         for rel, m in pool:
             print(m[2])
@@ -211,6 +213,8 @@ def main():
         by_file.setdefault(rel, []).append(m)
     picks = []
     fl = sorted(by_file)
+    if args.all:
+        args.n = len(pool)
     while len(picks) < args.n and fl:
         rel = rng.choice(fl)
         m = by_file[rel].pop(rng.randrange(len(by_file[rel])))
